@@ -46,6 +46,8 @@ func runC05(cx *Ctx, r *Report) {
 	per := collectEvents(cx, r, "farm", "msg", "abci")
 	cx.farmSettlementCommitted(r, per)
 	cx.rewardAfterUpdate(r, per)
+	cx.scanPrefixClosedRule(r, []string{"farm"}, "scan-prefix-closed")
+	cx.keyEncodingUniformRule(r, []string{"farm"}, "key-encoding-uniform")
 	amt := "msg.Amount.Amount"
 	// ---------------- Stake
 	{
@@ -282,6 +284,8 @@ func runC06(cx *Ctx, r *Report) {
 	per := collectEvents(cx, r, "farm", "msg", "abci")
 	cx.farmSettlementCommitted(r, per)
 	cx.rewardAfterUpdate(r, per)
+	cx.scanPrefixClosedRule(r, []string{"farm"}, "scan-prefix-closed")
+	cx.keyEncodingUniformRule(r, []string{"farm"}, "key-encoding-uniform")
 	// ---------------- create
 	{
 		evs := per["CreatePool"]
@@ -655,36 +659,62 @@ func (cx *Ctx) rewardAfterUpdate(r *Report, per map[string][]hev) {
 			if x.ev.Kind != "bank.SendCoinsFromModuleToAccount" || x.ev.Args[1].LooseString() != `"reward_collector"` || x.e.Role != "msg" && x.e.Role != "abci" {
 				continue
 			}
-				// the per-share calculation runs on the pool as the shared update left it (rules
+			// the per-share calculation runs on the pool as the shared update left it (rules
 			// loaded, rewards released up to this block): the update is executed before the
 			// payout on every path, except on the route of an ended pool
 			// (path rule in the handler's own frame: every path to the payout passes the call
 			// that performs the update, or the ended-pool route that loads the rules itself)
 			upd := false
+			var cands []hev
+			for _, y := range per[name] {
+				switch {
+				case y.ev.Kind == "assign:FarmPool.LastHeightDistrRewards":
+					cands = append(cands, y)
+				case (y.ev.Kind == "store.iter" || y.ev.Kind == "store.get") && hasPrefix(y.ev, "farm:FarmPoolRuleKey=0x02"):
+					if _, exp := y.fact(true, "farm/keeper.Keeper.Expired("); exp {
+						cands = append(cands, y)
+					}
+				}
+			}
 			for A := x.ev.Fr; A != nil && !upd; A = A.Parent {
 				px := liftTo(x.ev, A)
 				if px == nil {
 					break
 				}
-				sites := map[ssa.Instruction]bool{}
-				for _, y := range per[name] {
-					sy := liftTo(y.ev, A)
-					if sy == nil || sy == px || !mustBelowSite(y.ev, A) {
-						continue
-					}
-					switch {
-					case y.ev.Kind == "assign:FarmPool.LastHeightDistrRewards":
-						sites[sy] = true
-					case (y.ev.Kind == "store.iter" || y.ev.Kind == "store.get") && hasPrefix(y.ev, "farm:FarmPoolRuleKey=0x02"):
-						if _, exp := y.fact(true, "farm/keeper.Keeper.Expired("); exp {
-							sites[sy] = true
-						}
-					}
-				}
+				sites := coveringSites(A, cands)
+				delete(sites, px)
 				upd = len(sites) > 0 && mustPassFrom(A.Fn, A.Fn.Blocks[0], func(i ssa.Instruction) bool { return sites[i] }, func(b *ssa.BasicBlock) bool { return b == px.Block() })
 			}
 			ended := false
 			r.check(upd || ended, "reward-after-update", name, x.ev.Pos(cx), "the reward is calculated after the shared pool update has run on every path (or the pool has ended)", "in "+name+" the reward is calculated and paid on a path that skips the shared pool update (the update that loads the reward rules into the pool and releases rewards up to this block): the calculation then sees no rules, pays nothing and stores an empty reward debt, so the farmer's next interaction pays the whole accumulated share again out of other farmers' rewards")
 		}
 	}
+}
+
+// coveringSites: the instructions of frame fr's function through which one of the events
+// is certain to execute: the event's own site, or a call whose callee cannot return
+// successfully without passing such a site itself (the events may sit in different
+// branches of a helper, as long as every successful path of the helper takes one of them).
+func coveringSites(fr *Frame, evs []hev) map[ssa.Instruction]bool {
+	out := map[ssa.Instruction]bool{}
+	children := map[*Frame][]hev{}
+	for _, e := range evs {
+		if e.ev.Fr == fr {
+			out[e.ev.Site] = true
+			continue
+		}
+		for f := e.ev.Fr; f != nil; f = f.Parent {
+			if f.Parent == fr && f.Call != nil {
+				children[f] = append(children[f], e)
+				break
+			}
+		}
+	}
+	for c, sub := range children {
+		in := coveringSites(c, sub)
+		if len(in) > 0 && mustPass(c.Fn, func(i ssa.Instruction) bool { return in[i] }) {
+			out[c.Call] = true
+		}
+	}
+	return out
 }
